@@ -9,8 +9,11 @@ package document
 
 // SDTContent.MarshalXML (w:sdtContent): every element of the content list is handed to the encoder exactly once, in list
 // order, as the very value the list holds (the same interface value: the same object, not a copy), and nothing else.
-// (SDT itself has no marshaler of its own: the order w:sdtPr, w:sdtEndPr, w:sdtContent is the field order of the struct,
-// i.e. decided inside encoding/xml - outside the model.)
+// SDT itself has no marshaler of its own: encoding/xml writes its fields in declaration order, so "w:sdtPr, then w:sdtEndPr,
+// then w:sdtContent" (the order the schema demands; a content control whose content precedes its properties is rejected by
+// Word) is a fact about the struct declaration. It is decided by the static obligation static:xml-order:document.SDT from
+// go/types (that encoding/xml follows declaration order is its documented behaviour - trusted):
+//@ xml-order SDT: w:sdtPr, w:sdtEndPr, w:sdtContent
 //@ func (*SDTContent).MarshalXML
 //@ props C03, C01
 //@ requires s != nil && e != nil
